@@ -111,6 +111,16 @@ def enumerate_cases(tier, seed):
             spec["groups"]["photon_collection"][0][2] = a1
             spec["groups"]["charge_collection"][0][2] = a2
             cases.append({"fam": "d", "spec": spec, "steps": 1, "ctor": ctor, "debug": False, "mode": "exposure"})
+    # family e: histories on one set of objects: run, edit (argument / enabled flag, through four entry points), run ...
+    edit_ops = [["arg_attr", 0], ["arg_attr", 1], ["arg_item", 1], ["arg_set", 0], ["arg_set", 1], ["toggle_attr", 0],
+                ["toggle_set", 1], ["replace", 0], ["replace_toggle", 1]]
+    depth = 3 if thorough else 2
+    for k in range(1, depth + 1):
+        for seq in itertools.product(edit_ops, repeat=k):
+            for first_run in ((True, False) if k == 1 else (True,)):
+                cases.append({"fam": "e", "edits": [list(x) for x in seq], "first_run": first_run,
+                              "run_between": k > 1 and (len(seq) % 2 == 0), "mode": "history", "ctor": "py",
+                              "debug": False, "steps": 2})
     # other running modes: subsets of <= 3 (quick: <= 2) groups and the full pipeline
     msub = cfgx.subsets(GROUPS, 1, 3 if thorough else 2) + [GROUPS]
     for mode in ("obs_seq", "obs_dask", "calibration"):
@@ -182,9 +192,82 @@ def yaml_text(spec, steps, seed, mode="exposure"):
     return yaml.safe_dump(doc, sort_keys=False)
 
 
+def run_history(case):
+    """family e: one detector/pipeline, runs interleaved with edits; every run must reflect the *current* configuration."""
+    import pyxel
+    from pyxel.pipelines import Processor
+
+    seed = int(os.environ.get("VERIF_SEED", "0") or 0)
+    viol = []
+    names = [("photon_collection", "hm0"), ("charge_collection", "hm1")]
+    cfg = {"hm0": {"enabled": True, "args": {"a": 1 + seed % 5, "v": [1, 2]}},
+           "hm1": {"enabled": True, "args": {"a": 2, "v": [3]}}}
+    det = mk.detector("ccd", 2, 3)
+    pipe = mk.pipeline({g: [("vp.probes.rec", n, eval(repr(cfg[n]["args"])), True)] for g, n in names})
+    holder = {"proc": Processor(detector=det, pipeline=pipe)}
+    counter = [10]
+    nruns = [0]
+    sig = []
+
+    def do_run(tag):
+        probes.reset()
+        p = holder["proc"]
+        try:
+            pyxel.run_mode(mk.exposure([1.0, 2.0]), p.detector, p.pipeline)
+        except Exception as e:  # noqa: BLE001
+            viol.append(({"fam": "e", "code": "raised"}, f"history {case['edits']}: run {tag} raised {type(e).__name__}: {e}"))
+            return
+        nruns[0] += 1
+        got = [(t["name"], t["step"], t["kw"]) for t in probes.TRACE]
+        exp = [(n, s, probes.tagged(cfg[n]["args"])) for s in range(2) for g, n in names if cfg[n]["enabled"]]
+        sig.append([x[:2] for x in exp])
+        if got != exp:
+            code = "stale-arguments" if [x[:2] for x in got] == [x[:2] for x in exp] else "stale-enabled"
+            viol.append(({"fam": "e", "code": code, "after": case["edits"][-1][0] if tag else "none"},
+                         f"history run? {case['first_run']} edits {case['edits']}: run {tag} executed {got} but the current "
+                         f"configuration is {exp}"))
+
+    if case["first_run"]:
+        do_run(0)
+    for i, (op, mi) in enumerate(case["edits"]):
+        g, n = names[mi]
+        counter[0] += 1
+        val = counter[0]
+        p = holder["proc"]
+        mf = getattr(getattr(p.pipeline, g), n)
+        if op == "arg_attr":
+            mf.arguments.a = val
+            cfg[n]["args"]["a"] = val
+        elif op == "arg_item":
+            mf.arguments["v"] = [val, val + 1]
+            cfg[n]["args"]["v"] = [val, val + 1]
+        elif op == "arg_set":
+            p.set(f"pipeline.{g}.{n}.arguments.a", val)
+            cfg[n]["args"]["a"] = val
+        elif op == "toggle_attr":
+            mf.enabled = not mf.enabled
+            cfg[n]["enabled"] = not cfg[n]["enabled"]
+        elif op == "toggle_set":
+            p.set(f"pipeline.{g}.{n}.enabled", not cfg[n]["enabled"])
+            cfg[n]["enabled"] = not cfg[n]["enabled"]
+        elif op == "replace":
+            holder["proc"] = p.replace({f"pipeline.{g}.{n}.arguments.a": val})
+            cfg[n]["args"]["a"] = val
+        elif op == "replace_toggle":
+            holder["proc"] = p.replace({f"pipeline.{g}.{n}.enabled": not cfg[n]["enabled"]})
+            cfg[n]["enabled"] = not cfg[n]["enabled"]
+        if case.get("run_between") and i < len(case["edits"]) - 1:
+            do_run(i + 1)
+    do_run(len(case["edits"]))
+    return {"viol": viol, "sig": cfgx.sig([sig, case["edits"]]), "nontrivial": True, "n": nruns[0],
+            "outcome": {"runs": nruns[0]}}
+
+
 def run_case(case):
     import pyxel
 
+    if case["fam"] == "e":
+        return run_history(case)
     seed = int(os.environ.get("VERIF_SEED", "0") or 0)
     spec, steps, mode = case["spec"], case["steps"], case["mode"]
     viol = []
